@@ -774,6 +774,14 @@ class Model:
                 continue
 
             def table_value(n, fi=fi):
+                if isinstance(n, ast.Subscript) and isinstance(n.ctx, ast.Load) and isinstance(n.slice, ast.Constant) and isinstance(n.value, ast.Name) \
+                        and n.value.id.isupper():
+                    # a module level table: `_KINDS = {'parameter': (...), ...}` ... `_KINDS['parameter']`
+                    val = fi.module.consts.get(n.value.id)
+                    if isinstance(val, ast.Dict) and all(isinstance(k, ast.Constant) for k in val.keys):
+                        for k, v in zip(val.keys, val.values):
+                            if k.value == n.slice.value and type(k.value) is type(n.slice.value):
+                                return v
                 if fi.cls is None:
                     return None
                 if isinstance(n, ast.Subscript) and isinstance(n.ctx, ast.Load) and isinstance(n.slice, ast.Constant) and isinstance(n.value, ast.Attribute) \
@@ -786,7 +794,15 @@ class Model:
                                 if k.value == n.slice.value and type(k.value) is type(n.slice.value):
                                     return v
                 return None
-            has_table = any(table_value(n) is not None for n in ast.walk(fi.node))
+            def type_tuple(n, fi=fi):
+                # `isinstance(x, NO_SEQUENCES)` with a module level `NO_SEQUENCES = str, bytes, dict`
+                if isinstance(n, ast.Call) and isinstance(n.func, ast.Name) and n.func.id in ('isinstance', 'issubclass') and len(n.args) == 2 \
+                        and isinstance(n.args[1], ast.Name):
+                    v = fi.module.consts.get(n.args[1].id)
+                    if isinstance(v, ast.Tuple) and v.elts and all(isinstance(e, (ast.Name, ast.Attribute)) for e in v.elts):
+                        return v
+                return None
+            has_table = any(table_value(n) is not None or type_tuple(n) is not None for n in ast.walk(fi.node))
             if not has_table and fi.qualname not in self.inlined:
                 continue
             if fi.qualname not in self.inlined:
@@ -800,6 +816,10 @@ class Model:
                     return ast.copy_location(_clone_ast(v), node) if v is not None else node
             if has_table:
                 _Tab().visit(root)
+                for n in ast.walk(root):
+                    v = type_tuple(n)
+                    if v is not None:
+                        n.args[1] = ast.copy_location(_clone_ast(v), n.args[1])
 
             def split(lst):
                 out = []
@@ -827,7 +847,113 @@ class Model:
                             continue
                     out.append(st)
                 return out
+            # `if (mobj := lookup(name)) is None:` reads `mobj = lookup(name)` + `if mobj is None:` (the walrus is evaluated first);
+            # `flag = 'a' if c1 else 'b' if c2 else None` reads as the if / elif / else statement that binds flag in each branch
+            def plain(lst):
+                out = []
+                for st in lst:
+                    for field in ('body', 'orelse', 'finalbody'):
+                        sub = getattr(st, field, None)
+                        if isinstance(sub, list) and sub and isinstance(sub[0], ast.stmt) and not isinstance(st, FUNC_TYPES + (ast.ClassDef,)):
+                            setattr(st, field, plain(sub))
+                    for h in getattr(st, 'handlers', []):
+                        h.body = plain(h.body)
+                    if isinstance(st, ast.If):
+                        first = st.test
+                        while isinstance(first, (ast.Compare, ast.BoolOp, ast.UnaryOp)):
+                            first = first.left if isinstance(first, ast.Compare) else (first.values[0] if isinstance(first, ast.BoolOp) else first.operand)
+                        if isinstance(first, ast.NamedExpr) and isinstance(first.target, ast.Name):
+                            a = ast.Assign(targets=[ast.Name(id=first.target.id, ctx=ast.Store())], value=first.value, type_comment=None)
+                            out.append(ast.fix_missing_locations(ast.copy_location(a, st)))
+                            tgt = first
+
+                            class _W(ast.NodeTransformer):
+                                def visit_NamedExpr(self, node, tgt=tgt):
+                                    if node is tgt:
+                                        return ast.copy_location(ast.Name(id=tgt.target.id, ctx=ast.Load()), node)
+                                    return self.generic_visit(node)
+                            st.test = _W().visit(st.test)
+                    if isinstance(st, ast.Assign) and len(st.targets) == 1 and isinstance(st.targets[0], ast.Name) and isinstance(st.value, ast.IfExp):
+                        def leaves(e):
+                            return leaves(e.body) + leaves(e.orelse) if isinstance(e, ast.IfExp) else [e]
+                        if any(isinstance(x, ast.Constant) for x in leaves(st.value)):
+                            def build(e, st=st):
+                                if not isinstance(e, ast.IfExp):
+                                    return [ast.copy_location(ast.Assign(targets=[ast.Name(id=st.targets[0].id, ctx=ast.Store())], value=e, type_comment=None), st)]
+                                return [ast.copy_location(ast.If(test=e.test, body=build(e.body), orelse=build(e.orelse)), st)]
+                            out.extend(ast.fix_missing_locations(x) for x in build(st.value))
+                            continue
+                    out.append(st)
+                return out
+            if not os.environ.get('VERIF_NO_PLAIN'):
+                root.body = plain(root.body)
+
+            class _FoldIfExp(ast.NodeTransformer):
+                def visit_IfExp(self, node):
+                    self.generic_visit(node)
+                    if isinstance(node.test, ast.Constant):     # a substituted flag argument: `a if True else b`
+                        return node.body if node.test.value else node.orelse
+                    return node
+            _FoldIfExp().visit(root)
+            # a pair that is only built to be taken apart: `both = (x, y)` (every binding a display of the same length) and one
+            # `a, b = both` as the only use, a and b bound nowhere else - reads `a = x; b = y` at the places of the bindings
+            names = {}
+            for n in walk_local(root):
+                if isinstance(n, ast.Name):
+                    names.setdefault(n.id, []).append(n)
+            for nm, occ in list(names.items()):
+                loads = [x for x in occ if isinstance(x.ctx, ast.Load)]
+                stores_ = [x for x in occ if isinstance(x.ctx, ast.Store)]
+                if len(loads) != 1 or not stores_:
+                    continue
+                use = getattr(loads[0], 'parent', None)
+                if not (isinstance(use, ast.Assign) and use.value is loads[0] and len(use.targets) == 1 and isinstance(use.targets[0], ast.Tuple)
+                        and all(isinstance(t, ast.Name) for t in use.targets[0].elts)):
+                    continue
+                tnames = [t.id for t in use.targets[0].elts]
+                defs = [getattr(x, 'parent', None) for x in stores_]
+                if not all(isinstance(d, ast.Assign) and len(d.targets) == 1 and d.targets[0] in stores_ and isinstance(d.value, ast.Tuple)
+                           and len(d.value.elts) == len(tnames) and not any(isinstance(e, ast.Starred) for e in d.value.elts) for d in defs):
+                    continue
+                if any(len([x for x in names.get(t, []) if isinstance(x.ctx, ast.Store)]) != 1 for t in tnames) or len(set(tnames)) != len(tnames):
+                    continue
+                if any(isinstance(x, ast.Name) and x.id in tnames for d in defs for x in ast.walk(d.value)):
+                    continue
+                for d in defs:
+                    d.targets = [ast.Tuple(elts=[ast.Name(id=t, ctx=ast.Store()) for t in tnames], ctx=ast.Store())]
+                    ast.fix_missing_locations(d)
+                use.targets = [ast.Name(id='_', ctx=ast.Store())]
+                use.value = ast.Constant(value=None)
+                ast.fix_missing_locations(use)
+            set_parents(root)
             root.body = split(root.body)
+
+            # `for limit in (self.min, self.max): other.validate(limit)`: a loop over a short display with a small body is read unrolled
+            def unroll(lst):
+                out = []
+                for st in lst:
+                    for field in ('body', 'orelse', 'finalbody'):
+                        sub = getattr(st, field, None)
+                        if isinstance(sub, list) and sub and isinstance(sub[0], ast.stmt) and not isinstance(st, FUNC_TYPES + (ast.ClassDef,)):
+                            setattr(st, field, unroll(sub))
+                    for h in getattr(st, 'handlers', []):
+                        h.body = unroll(h.body)
+                    if isinstance(st, ast.For) and isinstance(st.iter, (ast.Tuple, ast.List)) and 1 <= len(st.iter.elts) <= 4 and isinstance(st.target, ast.Name) \
+                            and not st.orelse and len(st.body) <= 3 and not any(isinstance(e, ast.Starred) for e in st.iter.elts) \
+                            and all(isinstance(e, (ast.Name, ast.Attribute, ast.Constant)) for e in st.iter.elts) \
+                            and not any(isinstance(x, (ast.Break, ast.Continue, ast.Return, ast.Yield)) or
+                                        (isinstance(x, ast.Name) and x.id == st.target.id and isinstance(x.ctx, (ast.Store, ast.Del)))
+                                        for b in st.body for x in ast.walk(b)):
+                        for e in st.iter.elts:
+                            class _S(ast.NodeTransformer):
+                                def visit_Name(self, node, e=e, name=st.target.id):
+                                    return ast.copy_location(_clone_ast(e), node) if node.id == name and isinstance(node.ctx, ast.Load) else node
+                            out.extend(ast.fix_missing_locations(_S().visit(_clone_ast(b))) for b in st.body)
+                        continue
+                    out.append(st)
+                return out
+            if not os.environ.get('VERIF_NO_UNROLL'):
+                root.body = unroll(root.body)
             # locals bound exactly once to a string constant / a class name are read through
             params = {a.arg for a in root.args.posonlyargs + root.args.args + root.args.kwonlyargs} | \
                 {a.arg for a in (root.args.vararg, root.args.kwarg) if a}
